@@ -5,6 +5,7 @@ package statekey
 
 import (
 	"fmt"
+	"math"
 	"reflect"
 	"sort"
 	"strings"
@@ -13,6 +14,8 @@ import (
 // Options: Skip lists field names that are not rendered (configuration pointers, next receivers, dropped counters).
 type Options struct {
 	Skip map[string]bool
+	// FollowPointers renders the pointee of every pointer (depth-limited; cycles end at the depth limit)
+	FollowPointers bool
 }
 
 func Of(x interface{}, opt Options) string {
@@ -43,6 +46,9 @@ func render(sb *strings.Builder, v reflect.Value, opt Options, depth int) {
 		fmt.Fprintf(sb, "%d", v.Uint())
 	case reflect.Float32, reflect.Float64:
 		fmt.Fprintf(sb, "%v", v.Float())
+		if v.Float() == 0 && math.Signbit(v.Float()) {
+			sb.WriteString("(-0)")
+		}
 	case reflect.String:
 		fmt.Fprintf(sb, "%q", v.String())
 	case reflect.Slice:
@@ -98,7 +104,9 @@ func render(sb *strings.Builder, v reflect.Value, opt Options, depth int) {
 		}
 		sb.WriteString("&")
 		sb.WriteString(v.Elem().Type().String())
-		if v.Elem().Kind() == reflect.Struct && v.Elem().NumField() > 0 {
+		if opt.FollowPointers {
+			render(sb, v.Elem(), opt, depth+1)
+		} else if v.Elem().Kind() == reflect.Struct && v.Elem().NumField() > 0 {
 			render(sb, v.Elem(), opt, depth+1)
 		}
 	case reflect.Interface:
